@@ -141,7 +141,7 @@ func (g *gen) fields() []fldT {
 
 func (g *gen) err(depth int) errT {
 	r := g.r
-	k := r.Intn(12)
+	k := r.Intn(14)
 	if depth >= 5 {
 		k = hx.Pick(r, []int{0, 1, 7, 9})
 	}
@@ -185,10 +185,32 @@ func (g *gen) err(depth int) errT {
 		return errT{Kind: hx.Pick(r, []string{"valerr", "valerrptr"}), Fields: g.fields(), Trunc: r.Chance(1, 5)}
 	case 10:
 		return errT{Kind: "fielderr", Fields: g.fields()[:0:0]}.withOneField(g)
+	case 12:
+		return g.bindErr(depth)
+	case 13:
+		if r.Chance(1, 3) {
+			return errT{Kind: "unknownfield", Fields: g.fields()}
+		}
+		e := errT{Kind: "multibind"}
+		for i, n := 0, r.Range(0, 3); i < n; i++ {
+			e.Kids = append(e.Kids, g.bindErr(5))
+		}
+		return e
 	default:
 		in := g.err(depth + 1)
 		return errT{Kind: "wrap", Msg: "outer", Inner: &in}
 	}
+}
+
+// bindErr: a binding.BindError (Field in Code, Value in Msg, JSON source + reason when Trunc, optional inner error)
+func (g *gen) bindErr(depth int) errT {
+	r := g.r
+	e := errT{Kind: "binderr", Code: bstr(hx.Pick(r, []string{"age", "page", "user.id", ""})), Msg: hx.Pick(r, msgs), Trunc: r.Chance(1, 3)}
+	if depth < 5 && r.Chance(1, 3) {
+		in := g.err(depth + 1)
+		e.Inner = &in
+	}
+	return e
 }
 
 func (e errT) withOneField(g *gen) errT {
